@@ -38,6 +38,10 @@ CHECKS = {
          "Exploration: 16k (quick) / 400k (thorough) documents valid by construction (deep literals, list-coerced values, fragments on unions/interfaces, __typename, introspection fields, variables through fragments, directives everywhere) are validated; ~190k fields, ~170k values, ~28k variable uses, ~32k directives per quick run are checked for Definition / ObjectDefinition / ExpectedType / VariableDefinition / Location links, in operations and in every fragment definition.",
          "Complete by construction over the documents generated (visits every node); custom-scalar literal contents are excepted as the property states; __typename's synthetic definition is checked by name and type.",
          "DESIGN.md §4 C09"),
+ "C10": ("determinism monitor: byte equality of canonically serialized error lists across k fresh parses, re-validation of the validated tree, schema reloads and 4 worker processes (digests compared by the driver)",
+         "Exploration: 5k (quick) / 76k (thorough) invalid-biased cases (1-3 injected faults incl. near-miss names with several equidistant suggestion candidates, collision documents, faulted schemas) x 8 / 16 in-process repeats x 4 processes; any difference in rule, message, location or order on any axis is a violation. The case generator's own determinism is checked (same index, same text in every process).",
+         "A cross-process difference is replayed with 64 in-process repeats; map-order effects show on both axes. One defect repaired (3c593d2).",
+         "DESIGN.md §4 C10"),
  "C12": ("round-trip monitor: model(parse(x)) = model(parse(format_c(parse(x)))) and text fixpoint, over generated trees with hostile strings x 20 formatter configurations",
          "Exploration: 5k (quick) / 100k (thorough) documents rendered from random syntax trees with hostile string values, directives in every position (incl. variable definitions), fragment variables and comments are parsed, formatted under every combination of comments x compacted x 5 indents (builtin / no-description flags rotated), re-parsed and compared through an independent AST->model adapter; the second format must reproduce the first byte for byte.",
          "Trusts the model adapter and diff; comments and positions are not compared; relative order of operations vs fragments not compared (formatter emits operations first by design). Two defects found by this check were repaired (fix: commits fc85355, 36779a6).",
